@@ -199,12 +199,11 @@ identifier token `n` replaced by `ρ n` is read as that tree with its call names
 statement. That covers function names, aggregate names, the type names of casts `e::INT` (the parser looks a type up
 lower-cased and stores the type, so the two trees are equal there), the word `array` of `array[…]` and the part of
 `EXTRACT(part FROM e)`.
-MISSING: (a) CREATE TABLE texts — the type names of column definitions and the pattern modes `split` / `match` are
-theorems about `parse_type` / `parse_regex_mode` (`C20Parse.column_type_case_insensitive`,
-`regex_mode_case_insensitive`), not lifted to `parseTokens`: the lock-step proof needs an error map and
-`NotDefinedType` quotes `name ++ "[]"…`, which no respelling of `name` commutes with; (b) one respelling for all
-tokens: a text that spells a column `COUNT` and the aggregate `COUNT(…)` and changes the letter case of the second only
-is outside the side condition (`ρ` would have to fix and to change the word `COUNT`). -/
+MISSING: one respelling for all tokens: a text that spells a column `COUNT` and the aggregate `COUNT(…)` and changes the
+letter case of the second only is outside the side condition (`ρ` would have to fix and to change the word `COUNT`).
+CREATE TABLE texts — the type names of column definitions, the pattern modes `split` / `match`, the column options — are
+`Props/C20Create.lean` (per occurrence, proved outright: `create_table_name_case_tree / _statement / _text /
+_same_output / _error_kind`). -/
 
 /-- **Letter case of names, trees** (`name_case_tree_partial`): respelling every identifier token by `ρ` respells the
 names of the tree; when `ρ` fixes the tree's case-sensitive names, only its call names -/
